@@ -12,6 +12,9 @@ use std::collections::HashMap;
 use std::iter::Enumerate;
 use std::slice::Iter;
 
+/// Maximal nesting depth of lists/dictionaries accepted by decoder.
+const MAX_NESTING_DEPTH: usize = 256;
+
 /// [Bencode](https://en.wikipedia.org/wiki/Bencode) decoder used by metafile/torrent files and
 /// BitTorrent protocol.
 #[derive(PartialEq, Clone, Debug)]
@@ -37,14 +40,27 @@ impl BDecoder {
         it: &mut Enumerate<Iter<u8>>,
         with_end: bool,
     ) -> Result<Vec<BValue>, Error> {
+        Self::values_vector_nested(it, with_end, 0)
+    }
+
+    /// Build vector with `BValue`'s. Decoder is recursive, so nesting `depth` is limited to not
+    /// exhaust the stack on (untrusted) input.
+    fn values_vector_nested(
+        it: &mut Enumerate<Iter<u8>>,
+        with_end: bool,
+        depth: usize,
+    ) -> Result<Vec<BValue>, Error> {
         let mut values = vec![];
 
         while let Some((pos, b)) = it.next() {
             match b.into() {
+                Delimiter::List | Delimiter::Dict if depth >= MAX_NESTING_DEPTH => {
+                    return Err(Error::DecodeTooDeep("values_vector", pos))
+                }
                 Delimiter::Num => values.push(Self::value_byte_str(it, pos, b)?),
                 Delimiter::Int => values.push(Self::value_int(it, pos)?),
-                Delimiter::List => values.push(Self::value_list(it)?),
-                Delimiter::Dict => values.push(Self::value_dict(it, pos)?),
+                Delimiter::List => values.push(Self::value_list(it, depth)?),
+                Delimiter::Dict => values.push(Self::value_dict(it, pos, depth)?),
                 Delimiter::End if with_end => return Ok(values),
                 Delimiter::End => return Err(Error::DecodeUnexpectedChar("values_vector", pos)),
                 Delimiter::Unknown => return Err(Error::DecodeIncorrectChar("values_vector", pos)),
@@ -66,15 +82,15 @@ impl BDecoder {
         Ok(BValue::Int(Self::parse_int(it, pos)?.0))
     }
 
-    fn value_list(it: &mut Enumerate<Iter<u8>>) -> Result<BValue, Error> {
-        return match Self::parse_list(it) {
+    fn value_list(it: &mut Enumerate<Iter<u8>>, depth: usize) -> Result<BValue, Error> {
+        return match Self::parse_list(it, depth) {
             Ok(v) => Ok(BValue::List(v)),
             Err(e) => Err(e),
         };
     }
 
-    fn value_dict(it: &mut Enumerate<Iter<u8>>, pos: usize) -> Result<BValue, Error> {
-        return match Self::parse_dict(it, pos) {
+    fn value_dict(it: &mut Enumerate<Iter<u8>>, pos: usize, depth: usize) -> Result<BValue, Error> {
+        return match Self::parse_dict(it, pos, depth) {
             Ok(v) => Ok(BValue::Dict(v)),
             Err(e) => Err(e),
         };
@@ -155,15 +171,16 @@ impl BDecoder {
         Ok((num, raw_num))
     }
 
-    fn parse_list(it: &mut Enumerate<Iter<u8>>) -> Result<Vec<BValue>, Error> {
-        return Self::values_vector(it, true);
+    fn parse_list(it: &mut Enumerate<Iter<u8>>, depth: usize) -> Result<Vec<BValue>, Error> {
+        return Self::values_vector_nested(it, true, depth + 1);
     }
 
     fn parse_dict(
         it: &mut Enumerate<Iter<u8>>,
         pos: usize,
+        depth: usize,
     ) -> Result<HashMap<Vec<u8>, BValue>, Error> {
-        let list = Self::values_vector(it, true)?;
+        let list = Self::values_vector_nested(it, true, depth + 1)?;
         if list.len() % 2 != 0 {
             return Err(Error::DecodeOddNumOfElements("parse_dict", pos));
         }
